@@ -1061,7 +1061,17 @@ func (b *bitstream) readN(n uint64) ([]byte, error) {
 	var err error
 	if n <= 64*1024 {
 		bs = make([]byte, n)
-		actual, err = io.ReadFull(b.in, bs)
+		// Like io.ReadFull, except that only io.EOF is forgiven when it arrives together with the last
+		// bytes needed: io.ReadFull drops any error in that case, and a failure of the underlying
+		// reader would be lost for good.
+		for uint64(actual) < n && err == nil {
+			var nn int
+			nn, err = b.in.Read(bs[actual:])
+			actual += nn
+		}
+		if uint64(actual) == n && err == io.EOF {
+			err = nil
+		}
 	} else {
 		// The length comes from the input and can't be trusted: let the buffer grow
 		// with the data that is actually there instead of allocating n bytes up front.
